@@ -321,7 +321,9 @@ func (o *OracleC21) Judge(w *World, b *BlockCtx, p *ProbeResult) {
 	}
 	// the redeemer must not pay the fee
 	if ic.GasCoin != ic.Coin && issuer != redeemer {
-		if d := balDelta(p, redeemer, ic.GasCoin); d.Sign() != 0 {
+		// (a credit is possible when the fee conversion of this redemption fills a limit order the redeemer
+		// owns in the gas coin's pool; a debit never is)
+		if d := balDelta(p, redeemer, ic.GasCoin); d.Sign() < 0 || (d.Sign() > 0 && !ownsOrder(p.Before, redeemer)) {
 			w.Report("C21", "redeem-effect", "redeemer-paid-fee", fmt.Sprintf("height %d: redeemer's gas-coin balance changed by %s", p.Height, d), p.Height)
 			return
 		}
